@@ -262,7 +262,7 @@ func TestVerifReplay(t *testing.T) {
 	out, _ := cmd.CombinedOutput()
 	output = string(out)
 	os.WriteFile(filepath.Join(dir, "output.txt"), []byte(output+fmt.Sprintf("\n(replay took %v)\n", time.Since(t0))), 0o644)
-	ok = strings.Contains(output, "REPLAY-REPRODUCED "+assertName) || strings.Contains(output, "REPLAY-ASSERT-FAILED "+assertName)
+	ok = strings.Contains(output, "REPLAY-REPRODUCED "+assertName) || strings.Contains(output, "REPLAY-ASSERT-FAILED "+assertName+"\n") || strings.Contains(output, "REPLAY-ASSERT-FAILED "+assertName+" ")
 	if assertName == "no-panic" && strings.Contains(output, "REPLAY-PANIC") {
 		ok = true
 	}
